@@ -469,6 +469,13 @@ func (v *c13Verifier) one(r gomatrixserverlib.VerifyJSONRequest) error {
 }
 
 // c13DB is a scripted KeyDatabase for the library's own KeyRing.
+// c13FailingVerifier fails altogether.
+type c13FailingVerifier struct{}
+
+func (c13FailingVerifier) VerifyJSONs(context.Context, []gomatrixserverlib.VerifyJSONRequest) ([]gomatrixserverlib.VerifyJSONResult, error) {
+	return nil, fmt.Errorf("c13: scripted verifier failure")
+}
+
 type c13DB struct{ keys c13Table }
 
 func (d *c13DB) FetcherName() string { return "c13DB" }
@@ -1052,6 +1059,10 @@ func c13Check(ctx *vfCtx, c c13Case) {
 	var verifier gomatrixserverlib.JSONVerifier
 	tv := &c13Verifier{keys: table}
 	switch c.Verifier {
+	case "failing":
+		// the receiver's key verifier is down: no signature was checked, nothing may be accepted
+		verifier = c13FailingVerifier{}
+		rs.Hard("verifier-failed")
 	case "keyring":
 		verifier = &gomatrixserverlib.KeyRing{KeyDatabase: &c13DB{keys: table}}
 	default:
@@ -1090,8 +1101,11 @@ func c13Check(ctx *vfCtx, c c13Case) {
 			sreq2.Header["Authorization"] = rev
 			sreq2 = sreq2.WithContext(util.ContextWithLogger(context.Background(), c13Quiet))
 			var verifier2 gomatrixserverlib.JSONVerifier = &c13Verifier{keys: table}
-			if c.Verifier == "keyring" {
+			switch c.Verifier {
+			case "keyring":
 				verifier2 = &gomatrixserverlib.KeyRing{KeyDatabase: &c13DB{keys: table}}
+			case "failing":
+				verifier2 = c13FailingVerifier{}
 			}
 			var got2 *FederationRequest
 			var resp2 util.JSONResponse
@@ -1475,7 +1489,7 @@ func c13GenBase(t *rapid.T, allowOdd bool) (c13Case, jv) {
 		KeyState: "valid",
 		NowMS:    1700000000000 + int64(rapid.IntRange(0, 1000000).Draw(t, "now")),
 		Skew:     rapid.SampledFrom([]int64{1, 2, 1000, 3600000, 86400000 * 30}).Draw(t, "skew"),
-		Verifier: rapid.SampledFrom([]string{"table", "table", "keyring"}).Draw(t, "verifier"),
+		Verifier: rapid.SampledFrom([]string{"table", "table", "table", "table", "keyring", "keyring", "failing"}).Draw(t, "verifier"),
 		T:        c13Tamper{Kind: "none"},
 	}
 	if rapid.IntRange(0, 5).Draw(t, "oldkey") == 0 {
